@@ -682,6 +682,25 @@ func (s *Sess) call(op *Op, out *Outcome) {
 		s.regs[op.ID] = &regEntry{spec: op.F, orig: nf, cached: c}
 	case "CacheUnregisterStale":
 		w.Cache().Unregister(&s.stale[op.ID%len(s.stale)])
+	case "CacheUseStale":
+		// every way of using a handle whose registration was dropped: no such filter, so the call must panic
+		st := &s.stale[op.ID%len(s.stale)]
+		switch op.Trav % 6 {
+		case 0:
+			q := w.Query(st)
+			q.Close()
+		case 1:
+			w.Batch().RemoveEntities(st)
+		case 2:
+			w.Batch().Add(st, s.IDs[op.Add[0]])
+		case 3:
+			w.Batch().Remove(st, s.IDs[op.Add[0]])
+		case 4:
+			q := w.Batch().AddQ(st, s.IDs[op.Add[0]])
+			q.Close()
+		default:
+			w.Batch().SetRelation(st, s.IDs[op.Add[0]], ecs.Entity{})
+		}
 	case "RegisterType":
 		n := len(s.IDs)
 		s.registerType(op.Key)
